@@ -18,7 +18,7 @@ PROP = 'C06'
 LEVEL = 'exploration'
 RULE = ('family circuits x all {0,1,R,F} stimuli x delay plans (zero delay on fork inputs) x capacities x configuration lattice: {c_reuse} x {strip_forks} x {WaveSim, WaveSimCuda under the '
         'repository\'s own mock launcher} x allocated lanes {n, n+1, n+7, 2n} x lane permutations (reversal, rotations, adjacent swap) x c_prop(sims=k) for k in 1..n (quick: 6 values) x '
-        'delay dataset selection (mode 0 with every seed, mode 1 with per-lane datasets) x a_ctrl; LogicSim: {c_reuse} x {strip_forks} x m in {2,4,8} on all stimuli, also on bench-parsed netlists whose output ports are read inside the circuit; '
+        'delay dataset selection (mode 0 with every seed, mode 1 with per-lane datasets) x a_ctrl; state transfer s_ppo_to_ppi (CPU method vs GPU kernel) after a settled or a mid-activity capture, compared through the following cycle; LogicSim: {c_reuse} x {strip_forks} x m in {2,4,8} on all stimuli, also on bench-parsed netlists whose output ports are read inside the circuit; '
         'oracle: bit-identical port results (and full signal memory where both runs keep it); distinct_nontrivial = distinct (case, configuration, result) signatures')
 ASSUMPTIONS = ['strip_forks comparisons use zero delay on lines feeding forks and uniform capacities (the statement\'s parenthesis)',
                'delay selection mode 2 (pseudo-random per-op choice) is outside the statement and not compared',
